@@ -57,6 +57,19 @@ func VerifH_C17_Expiry() {
 	i2 := newChannelInstance(rcv.sc)
 	i2.state, i2.secureChannelID, i2.securityTokenID, i2.algo = channelActive, ch, t2, algo2
 	i2.SetMaximumBodySize(8192)
+	var i0 *channelInstance
+	if vfBool("olderTokenPresent") {
+		// an even older token that has not expired yet (its lifetime was longer): the expiring one is not the oldest entry
+		t0 := vfU32("olderToken")
+		vfAssume(t0 != t1 && t0 != t2)
+		n0c, n0s := make([]byte, 32), make([]byte, 32)
+		n0c[0], n0s[0] = 5, 6
+		i0 = newChannelInstance(rcv.sc)
+		i0.state, i0.secureChannelID, i0.securityTokenID = channelActive, ch, t0
+		i0.algo = vfNewEnd("rcv0", client, pi, mode, n0c, n0s, ack, nil, ch, t0, 0).inst.algo
+		i0.SetMaximumBodySize(8192)
+		rcv.sc.instances[ch] = append([]*channelInstance{i0}, rcv.sc.instances[ch]...)
+	}
 	rcv.sc.instances[ch] = append(rcv.sc.instances[ch], i2)
 	rcv.sc.activeInstance = i2
 
@@ -69,5 +82,15 @@ func VerifH_C17_Expiry() {
 	vfAssert(m2 != nil && m2.Err != nil, "a chunk secured with an expired token is delivered")
 	m3 := rcv.sc.Receive(context.Background())
 	vfAssert(m3 != nil && m3.Err == nil && m3.RequestID == 103, "the current token stops working when the old one expires")
+	if i0 != nil {
+		still := false
+		for _, in := range rcv.sc.instances[ch] {
+			if in == i0 {
+				still = true
+			}
+		}
+		vfAssert(still, "expiry of one token removes another token that has not expired")
+		vfReach("middle")
+	}
 	vfReach("expired")
 }
